@@ -11,7 +11,7 @@ From Coq Require Import Lia ZArith List Bool.
 From RM Require C09.Model.
 From RM Require Import Base.Word C08.Model C08.Proofs C09.Grammar C09.Driver C09.Proofs C09.ProofsBytes
                        C09.ProofsFinish C09.ProofsFinal.
-From RM Require Import C11.Model C11.Proofs1 C11.Proofs2 C11.Proofs5 C11.Proofs8 C11.Text C11.Text2.
+From RM Require Import C11.Model C11.Proofs1 C11.Proofs2 C11.Proofs5 C11.Proofs7 C11.Proofs8 C11.Text C11.Text2.
 Import ListNotations.
 Open Scope Z_scope.
 
@@ -495,4 +495,18 @@ Proof.
     apply in_map_iff in Hw. destruct Hw as (w0 & <- & Hw). exists w0. auto.
   - right. unfold raw_of_pst in Hin. cbn [rf_publics] in Hin. apply in_map_iff in Hin.
     destruct Hin as (pb0 & <- & Hin). apply in_rev in Hin. exists pb0. cbn in *. auto 10.
+Qed.
+
+(* Symbolizer level: a module whose SymbolFile was parsed from such bytes meets [module_parsed], the
+   hypothesis of c11_module_frame_total (walk_stack -> fill_source_line_info -> Symbolizer::fill_symbol
+   never panics and the frame is the pure result for the module found) *)
+Lemma bytes_module_parsed nm tg (bytes : list Z) (sch : list Z) q s :
+  drive_c (map to_rle (fst (split_bytes bytes []))) (Z.of_nat (length (snd (split_bytes bytes [])))) sch
+    = Ret (RM.C09.Model.ROk q, s) ->
+  Z.of_nat (length bytes) < two32 - 1 -> enc_names_ok nm tg q ->
+  exists t, finish q = Ret t /\ forall b sz, module_parsed (b, sz, Some (symtab_of_table nm tg t)).
+Proof.
+  intros H Hlen He. destruct (from_bytes nm tg bytes sch q s H Hlen He) as (t & Ht & Hwf & Hrel & _).
+  exists t. split; [exact Ht|]. intros b sz. unfold module_parsed. cbn [snd].
+  exists (raw_of_pst nm tg q). split; assumption.
 Qed.
